@@ -61,6 +61,26 @@ inductive Resp where
   | next (n : Nat)
   deriving Repr, Inhabited
 
+/-- The shape of the single-row entry points (`none`: compound, bucket-level, feed or read operations). -/
+def Op.shape : Op → Option OpShape
+  | .add c k exp v json => some (.row c k (addRow k exp v (if json then true else looksLikeJSON v)))
+  | .set c k exp pe v raw => some (.row c k (setRow k exp pe v (!raw)))
+  | .wcas c k exp cas v o => some (.row c k (wcasRow k exp cas v o))
+  | .remove c k cas => some (.row c k (removeRow k (some cas)))
+  | .delete c k => some (.row c k (removeRow k none))
+  | .touch c k exp => some (.row c k (touchRow exp))
+  | .incr c k amt d exp => some (.row c k (incrRow k amt d exp))
+  | .setx c k sets => some (shapeSetXattrs c k sets)
+  | .rmx c k names cas => some (shapeRemoveXattrs c k names cas)
+  | .updx c k exp cas sets m => some (shapeUpdateXattrs c k exp cas sets m)
+  | .wwx c k exp cas v sets dels pe m => some (shapeWriteWithXattrs c k exp cas v sets dels pe m)
+  | .wtx c k exp cas sets dels db m => some (shapeWriteTombstoneWithXattrs c k exp cas sets dels db m)
+  | .wrx c k exp v sets pe m => some (shapeWriteResurrectionWithXattrs c k exp v sets pe m)
+  | .uxdb c k xk exp cas xv m => some (shapeUpdateXattrDeleteBody c k xk exp cas xv m)
+  | .delx c k names => some (.row c k (delxRow k names))
+  | .dsp c k names => some (.row c k (dspRow k names))
+  | _ => none
+
 def readBack (s : State) (c k : String) (names : List String) : ReadBack :=
   { row := s.row? c k, getRaw := getRaw s c k, exists_ := exists_ s c k, getExpiry := getExpiry s c k,
     gwx := getWithXattrs s c k names, gx := getXattrs s c k names }
